@@ -49,6 +49,9 @@ TEnter ==      \* the driver's call of a sampler entry point; the logged entry p
   /\ phase = "sampling"
   /\ \E o \in OptionSpace :
        /\ (phase = "sampling" => Select(o) = Ev.entry)
+       \* when the harness knows the options the driver was given, the entry point must be the one the option ladder
+       \* prescribes for THESE options (not merely for some options)
+       /\ (Ev.has_opts => o = [ad_mode |-> Ev.ad_mode, orbital_rotation |-> Ev.orbital_rotation, do_sr |-> Ev.do_sr])
        /\ opts' = o
        /\ pc = "d_call"
        /\ LET e == IF phase = "eql" THEN "plain" ELSE Select(o)
